@@ -101,7 +101,9 @@ they end and holds the well-formed records `rs ≠ []` followed by a torn tail
 bytes); replaying `rs` succeeds with store `sm2`; `truncate` is configured and
 no linked file is named `i + |encAll rs|`. Then `open` succeeds, cuts file `i`
 to `|encAll rs|` bytes, creates a chunk with id `i + |encAll rs|` whose content
-is the `State` record of the replayed state, and touches no other file. -/
+is the `State` record of the replayed state, and touches no other file except
+that every chunk it keeps (`ids` and `i`) is synced once (D15: `syncEvs ids`, the
+extra `sync "o" i true`, and `fs.syncAll ids` in the frame condition). -/
 theorem c10_open_truncates_and_creates (cfg : Cfg) (fs : Fs) (ids : List Nat) (i : Nat)
     (a' : OpenAcc) (f : File) (rs : List Record) (tail : Bytes) (sm2 : Store)
     (ht : cfg.truncate = true)
@@ -114,51 +116,62 @@ theorem c10_open_truncates_and_creates (cfg : Cfg) (fs : Fs) (ids : List Nat) (i
     (hfree : fs.has (i + (encAll rs).length) = false) :
     ∃ s w fs',
       openStore cfg fs = (.ok (s, w), fs',
-        [.trunc "o" i (encAll rs).length, .sync "o" i true,
+        syncEvs ids ++ [.trunc "o" i (encAll rs).length, .sync "o" i true, .sync "o" i true,
          .create "o" (i + (encAll rs).length) true,
          .write "o" (i + (encAll rs).length) (encRecord (.state sm2.st)) true]) ∧
       s.st = sm2.st ∧
       s.openOffsets = [i + (encAll rs).length,
         i + (encAll rs).length + (encRecord (.state sm2.st)).length] ∧
       w.files = [⟨i + (encAll rs).length, sm2.st.last⟩] ∧
-      fs'.find i = some { f with data := encAll rs,
-                                 durable := min f.durable (encAll rs).length } ∧
+      fs'.find i = some { f with data := encAll rs, durable := (encAll rs).length } ∧
       fs'.find (i + (encAll rs).length)
         = some { id := i + (encAll rs).length, data := encRecord (.state sm2.st), durable := 0,
                  linked := true } ∧
-      ∀ id, id ≠ i → id ≠ i + (encAll rs).length → fs'.find id = fs.find id := by
+      ∀ id, id ≠ i → id ≠ i + (encAll rs).length → fs'.find id = (fs.syncAll ids).find id := by
   obtain ⟨hfs, hevs⟩ := hload.fs_evs
-  have hfs' : a'.fs = fs := hfs
-  have hevs' : a'.evs = [] := hevs
-  have hfind' : a'.fs.find i = some f := by rw [hfs']; exact hfind
-  have hl := openLoop_torn_last ht habut hfind' hd hwf hne htail hr
+  have hfs' : a'.fs = fs.syncAll ids := hfs
+  have hevs' : a'.evs = syncEvs ids := by rw [hevs]; rfl
+  obtain ⟨f1, hfind1, hd1, hid1, hlk1⟩ : ∃ f1, (fs.syncAll ids).find i = some f1 ∧
+      f1.data = f.data ∧ f1.id = f.id ∧ f1.linked = f.linked := by
+    rw [Fs.find_syncAll, hfind]
+    by_cases hc : ids.contains f.id = true
+    · exact ⟨{ f with durable := f.data.length }, by simp only [Option.map_some, if_pos hc],
+        rfl, rfl, rfl⟩
+    · exact ⟨f, by simp only [Option.map_some, if_neg hc], rfl, rfl, rfl⟩
+  have hfind' : a'.fs.find i = some f1 := by rw [hfs']; exact hfind1
+  have hl := openLoop_torn_last ht habut hfind' (hd1.trans hd) hwf hne htail hr
   have hloop : openLoop cfg fs.linkedIds { sm := emptyStore cfg, fs := fs }
       = (.ok (a'.loadedTrunc i rs sm2), a'.loadedTrunc i rs sm2) := by
     rw [hids, hload.openLoop_append, hl]
   have hlen := encAll_length_pos hne
   have hprev : (a'.loadedTrunc i rs sm2).prevEnd.getD 0 = i + (encAll rs).length := by
     simp only [OpenAcc.loadedTrunc, lastOff_sized, Option.getD_some]
-  have hafs : (a'.loadedTrunc i rs sm2).fs = fs.truncate i (encAll rs).length := by
-    simp only [OpenAcc.loadedTrunc, OpenAcc.afterTrunc, OpenAcc.pre, hfs']
+  have hafs : (a'.loadedTrunc i rs sm2).fs
+      = (((fs.syncAll ids).truncate i (encAll rs).length).sync i) := by
+    simp only [OpenAcc.loadedTrunc, OpenAcc.synced, OpenAcc.afterTrunc, OpenAcc.pre, hfs']
   have hhas : (a'.loadedTrunc i rs sm2).fs.has (i + (encAll rs).length) = false := by
-    rw [hafs, Fs.has_truncate]; exact hfree
+    rw [hafs, Fs.has_sync, Fs.has_truncate, Fs.has_syncAll]; exact hfree
   have hst := openStore_fresh hloop (Or.inl rfl) hprev hhas
   have hev : (a'.loadedTrunc i rs sm2).evs
-      = [.trunc "o" i (encAll rs).length, .sync "o" i true] := by
-    simp only [OpenAcc.loadedTrunc, OpenAcc.afterTrunc, OpenAcc.pre, hevs', List.nil_append]
+      = syncEvs ids ++ [.trunc "o" i (encAll rs).length, .sync "o" i true, .sync "o" i true] := by
+    simp only [OpenAcc.loadedTrunc, OpenAcc.synced, OpenAcc.afterTrunc, OpenAcc.pre, hevs',
+      List.append_assoc, List.cons_append, List.nil_append]
   have hcl : prevLastOf (a'.loadedTrunc i rs sm2).sm.closed = sm2.st.last :=
     prevLastOf_concat _ _
   have hsm : (a'.loadedTrunc i rs sm2).sm.st = sm2.st := rfl
   rw [hev, hcl, hsm, hafs] at hst
-  obtain ⟨hnew, hother⟩ := find_create_write (fs.truncate i (encAll rs).length)
+  obtain ⟨hnew, hother⟩ := find_create_write
+    (((fs.syncAll ids).truncate i (encAll rs).length).sync i)
     (i + (encAll rs).length) (encRecord (.state sm2.st))
+  simp only [List.append_assoc, List.cons_append, List.nil_append] at hst
   refine ⟨_, _, _, hst, rfl, rfl, rfl, ?_, hnew, ?_⟩
-  · rw [hother i (by omega), Fs.find_truncate, hfind]
-    have hid : (f.id == i) = true := by rw [find_id hfind]; exact beq_self_eq_true i
-    simp only [Option.map_some, hid, if_true, hd, List.take_left' rfl]
+  · rw [hother i (by omega), Fs.find_sync, Fs.find_truncate, hfind1]
+    have hid : (f1.id == i) = true := by rw [find_id hfind1]; exact beq_self_eq_true i
+    simp only [Option.map_some, hid, if_true]
+    simp only [hd1, hd, List.take_left' rfl, hid1, hlk1]
   · intro id h1 h2
-    rw [hother id h2, Fs.find_truncate]
-    cases hf : fs.find id with
+    rw [hother id h2, Fs.find_sync, Fs.find_truncate]
+    cases hf : (fs.syncAll ids).find id with
     | none => rfl
     | some g =>
       have : (g.id == i) = false := by rw [find_id hf]; exact beq_false_of_ne h1
@@ -174,10 +187,10 @@ theorem c10_open_single_chunk' (cfg : Cfg) (i d : Nat) (rs : List Record)
     ∃ s w,
       openStore cfg [{ id := i, data := encAll rs ++ tail, durable := d, linked := true }] =
         (.ok (s, w),
-          [{ id := i, data := encAll rs, durable := min d (encAll rs).length, linked := true },
+          [{ id := i, data := encAll rs, durable := (encAll rs).length, linked := true },
            { id := i + (encAll rs).length, data := encRecord (.state sm2.st),
              durable := 0, linked := true }],
-          [.trunc "o" i (encAll rs).length, .sync "o" i true,
+          [.trunc "o" i (encAll rs).length, .sync "o" i true, .sync "o" i true,
            .create "o" (i + (encAll rs).length) true,
            .write "o" (i + (encAll rs).length) (encRecord (.state sm2.st)) true]) ∧
       s.st = sm2.st ∧
@@ -200,23 +213,25 @@ theorem c10_open_single_chunk' (cfg : Cfg) (i d : Nat) (rs : List Record)
       = i + L.length := by
     simp only [OpenAcc.loadedTrunc, lastOff_sized, Option.getD_some, hL]
   have hafs : (OpenAcc.loadedTrunc { sm := emptyStore cfg, fs := [f] } i rs sm2).fs
-      = [{ id := i, data := L, durable := min d L.length, linked := true }] := by
-    simp [OpenAcc.loadedTrunc, OpenAcc.afterTrunc, OpenAcc.pre, Fs.truncate, Fs.update, f, hL]
+      = [{ id := i, data := L, durable := L.length, linked := true }] := by
+    simp [OpenAcc.loadedTrunc, OpenAcc.synced, OpenAcc.afterTrunc, OpenAcc.pre, Fs.truncate,
+      Fs.sync, Fs.update, f, hL]
   have hhas : (OpenAcc.loadedTrunc { sm := emptyStore cfg, fs := [f] } i rs sm2).fs.has
       (i + L.length) = false := by
     rw [hafs]; simp [Fs.has, Fs.find, hne']
   have hst := openStore_fresh hloop (Or.inl rfl) hprev hhas
   have hev : (OpenAcc.loadedTrunc { sm := emptyStore cfg, fs := [f] } i rs sm2).evs
-      = [.trunc "o" i L.length, .sync "o" i true] := by
-    simp only [OpenAcc.loadedTrunc, OpenAcc.afterTrunc, OpenAcc.pre, List.nil_append, hL]
+      = [.trunc "o" i L.length, .sync "o" i true, .sync "o" i true] := by
+    simp only [OpenAcc.loadedTrunc, OpenAcc.synced, OpenAcc.afterTrunc, OpenAcc.pre,
+      List.nil_append, List.cons_append, hL]
   have hcl : prevLastOf (OpenAcc.loadedTrunc { sm := emptyStore cfg, fs := [f] } i rs sm2).sm.closed
       = sm2.st.last := prevLastOf_concat _ _
   have hsm : (OpenAcc.loadedTrunc { sm := emptyStore cfg, fs := [f] } i rs sm2).sm.st = sm2.st :=
     rfl
   rw [hev, hcl, hsm, hafs] at hst
-  have hfin : (Fs.create [{ id := i, data := L, durable := min d L.length, linked := true }]
+  have hfin : (Fs.create [{ id := i, data := L, durable := L.length, linked := true }]
       (i + L.length)).write (i + L.length) (encRecord (.state sm2.st))
-      = [{ id := i, data := L, durable := min d L.length, linked := true },
+      = [{ id := i, data := L, durable := L.length, linked := true },
          { id := i + L.length, data := encRecord (.state sm2.st), durable := 0, linked := true }] := by
     have hne'' : (i != i + L.length) = true := by simp [bne, hne']
     have hLne : L ≠ [] := by intro h; rw [h] at hlen; simp at hlen
@@ -240,10 +255,11 @@ theorem c10_open_single_chunk (cfg : Cfg) (i d : Nat) (st0 : RState) (rs : List 
                        linked := true }] =
         (.ok (s, w),
           [{ id := i, data := encAll (Record.state st0 :: rs),
-             durable := min d (encAll (Record.state st0 :: rs)).length, linked := true },
+             durable := (encAll (Record.state st0 :: rs)).length, linked := true },
            { id := i + (encAll (Record.state st0 :: rs)).length,
              data := encRecord (.state sm2.st), durable := 0, linked := true }],
           [.trunc "o" i (encAll (Record.state st0 :: rs)).length, .sync "o" i true,
+           .sync "o" i true,
            .create "o" (i + (encAll (Record.state st0 :: rs)).length) true,
            .write "o" (i + (encAll (Record.state st0 :: rs)).length)
              (encRecord (.state sm2.st)) true]) ∧
@@ -267,7 +283,7 @@ example : (openChunk {} 7 (encAll [.commit ⟨1, 2⟩] ++ List.replicate 30 0)).
 torn after 5 bytes. `open` cuts the file to 46 bytes and creates chunk 7 + 46. -/
 example : (openStore {} [{ id := 7, data := encAll [.state {}, .commit ⟨1, 2⟩]
                             ++ (encRecord (.saveVote ⟨3, 4⟩)).take 5 }]).2.1
-    = [{ id := 7, data := encAll [.state {}, .commit ⟨1, 2⟩] },
+    = [{ id := 7, data := encAll [.state {}, .commit ⟨1, 2⟩], durable := 46 },
        { id := 53, data := encRecord (.state { committed := some ⟨1, 2⟩ }) }] := by
   decide +kernel
 
